@@ -120,3 +120,21 @@ Definition matte_table_digest : Z :=
   dg (flat_map (fun x => map (fun a => matte_px x a) (zseq 256)) (zseq 256)).
 Definition unmatte_table_digest : Z :=
   dg (flat_map (fun x => map (fun a => unmatte_px x a) (zseq 256)) (zseq 256)).
+
+(* ------------------------------------------------------------------ stream "session" (C17): several saves of one object *)
+(* step = (kind, (straight, white, alpha), (transp, tindex)); kind 0 structural edit, 1 attribute edit, 2 save *)
+Definition step_of (e : Z * (list plane * list plane * plane) * (bool * Z)) : step :=
+  let '(k, (s, w, a), (tr, ti)) := e in
+  if k =? 0 then SStruct else if k =? 1 then SAttr else SSave (mkRd s w a) tr ti.
+
+Record session_case := mkSS {
+  ss_cfg : Z; ss_cm : Z; ss_channels : Z; ss_w : Z; ss_h : Z; ss_depth : Z; ss_comp : Z;
+  ss_old : list plane; ss_steps : list (Z * (list plane * list plane * plane) * (bool * Z)) }.
+
+Definition session_digests (k : session_case) : list Z :=
+  let hd := mkH (cmode_of_code (ss_cm k)) (ss_channels k) (ss_w k) (ss_h k) (ss_depth k) in
+  let old := mkI (comp_of_code (ss_comp k)) (concat (ss_old k)) in
+  flat_map (fun r =>
+              [ dg (canon_res canon_planes (do st <- r; get_data st hd));
+                match r with Ok st => (match i_comp st with RAW => zlen (i_vis st) | _ => 0 end) | Err _ => 0 end ])
+           (session (cfg_of_bits (ss_cfg k)) hd (false, old) (map step_of (ss_steps k))).
